@@ -298,8 +298,16 @@ Qed.
    K names every pool a request of the block names; the coins at outputs 0 / 1 of the block's transactions
    have distinct ids and, where they still exist, are as declared; the first (second) outputs of the block sum
    to less than 2^128. *)
-Definition as_declared (c : cdh) (o : coindata) : Prop :=
-  cd_denom (c_data c) = cd_denom o /\ cd_value (c_data c) = cd_value o.
+(* a coin at an output id of t is as t declared it: the declared value, and the declared denomination
+   (a new-token output under its final name, as output_coins inserts it) *)
+Definition as_declared (t : tx) (c : cdh) (o : coindata) : Prop :=
+  cd_denom (c_data c) = fix_denom t (cd_denom o) /\ cd_value (c_data c) = cd_value o.
+
+Lemma as_declared_def t c o :
+  as_declared t c o <-> cd_denom (c_data c) = fix_denom t (cd_denom o) /\ cd_value (c_data c) = cd_value o.
+Proof. reflexivity. Qed.
+Lemma fix_denom_id t d : d <> NewCustom -> fix_denom t d = d.
+Proof. destruct d; cbn; congruence. Qed.
 
 Lemma tx_pool_sides t k : tx_pool t = Some k -> fst k <> snd k.
 Proof.
@@ -320,7 +328,7 @@ Theorem process_swaps_settles s s' :
   process_swaps s = Ok s' ->
   (forall t k, In t (sorted_txs s) -> tx_pool t = Some k -> In k K) ->
   NoDup (key_pairs (sorted_txs s)) ->
-  (forall t c, In t (sorted_txs s) -> t_kind t = KSwap -> s_coins s !! key0 t = Some c -> as_declared c (out0 t)) ->
+  (forall t c, In t (sorted_txs s) -> t_kind t = KSwap -> s_coins s !! key0 t = Some c -> as_declared t c (out0 t)) ->
   nsum (map (fun t => cd_value (out0 t)) (sorted_txs s)) < U128 ->
   forall d, settles d s s'.
 Proof.
@@ -339,9 +347,16 @@ Proof.
     apply andb_true_iff in Hr as [_ Hd].
     assert (Eo0: out0 t = o0) by (unfold out0; rewrite Eo; reflexivity).
     unfold has_coin in Hc. fold (key0 t) in Hc. destruct (s_coins s !! key0 t) as [c|] eqn:Ec; [|discriminate].
-    destruct (Hdecl t c Hin Ek Ec) as [D V]. split.
+    destruct (Hdecl t c Hin Ek Ec) as [D V].
+    assert (Hside: cd_denom (out0 t) = fst k \/ cd_denom (out0 t) = snd k)
+      by (rewrite Eo0; apply orb_true_iff in Hd as [Hd|Hd]; apply denom_eqb_eq in Hd; auto).
+    assert (Hnn: cd_denom (out0 t) <> NewCustom).
+    { unfold tx_pool in E. destruct (t_poolkey t) as [k0|]; [|discriminate].
+      destruct (canonical_key k0 (t_data t)) eqn:Ec2; [|discriminate]. injection E as <-.
+      apply canonical_key_spec in Ec2 as (_ & N1 & N2 & _). destruct Hside as [-> | ->]; assumption. }
+    rewrite (fix_denom_id t _ Hnn) in D. split.
     + exists c. auto.
-    + rewrite Eo0. apply orb_true_iff in Hd as [Hd|Hd]; apply denom_eqb_eq in Hd; auto.
+    + exact Hside.
   - eapply N.le_lt_trans; [apply nsum_filter_le|exact Hsum].
 Qed.
 
@@ -349,7 +364,7 @@ Theorem process_withdrawals_settles s s' :
   process_withdrawals SO s = Ok s' ->
   (forall t k, In t (sorted_txs s) -> tx_pool t = Some k -> In k K /\ LDk k <> fst k /\ LDk k <> snd k) ->
   NoDup (key_pairs (sorted_txs s)) ->
-  (forall t c, In t (sorted_txs s) -> t_kind t = KLiqWithdraw -> s_coins s !! key0 t = Some c -> as_declared c (out0 t)) ->
+  (forall t c, In t (sorted_txs s) -> t_kind t = KLiqWithdraw -> s_coins s !! key0 t = Some c -> as_declared t c (out0 t)) ->
   nsum (map (fun t => cd_value (out0 t)) (sorted_txs s)) < U128 ->
   (forall k p, In k K -> get_pool s k = Some p -> p_lefts p < U128 /\ p_rights p < U128) ->
   forall d, settles d s s'.
@@ -372,7 +387,9 @@ Proof.
     assert (Ek: t_kind t = KLiqWithdraw) by (destruct (t_kind t); cbn in Hkind; try discriminate; reflexivity).
     destruct (get_pool s k) as [p|]; [|discriminate]. apply denom_eqb_eq in Hd.
     unfold has_coin in Hc. fold (key0 t) in Hc. destruct (s_coins s !! key0 t) as [c|] eqn:Ec; [|discriminate].
-    destruct (Hdecl t c Hin Ek Ec) as [D V]. split; [exists c; auto|exact Hd].
+    destruct (Hdecl t c Hin Ek Ec) as [D V].
+    rewrite (fix_denom_id t (cd_denom (out0 t))) in D by (rewrite Hd; unfold LDk; discriminate).
+    split; [exists c; auto|exact Hd].
   - eapply N.le_lt_trans; [apply nsum_filter_le|exact Hsum].
   - intros k p Hk Ep. apply pool_keys_sorted_in in Hk as (t & Ht & E). destruct (Hreq t Ht) as [Hin _].
     apply (Hbound k p (proj1 (Hcover t k Hin E)) Ep).
@@ -394,8 +411,8 @@ Theorem process_deposits_settles s s' :
   legacy_net s && (s_height s <? 978392) = false ->
   (forall t k, In t (sorted_txs s) -> tx_pool t = Some k -> In k K /\ LDk k <> fst k /\ LDk k <> snd k) ->
   NoDup (key_pairs (sorted_txs s)) ->
-  (forall t c, In t (sorted_txs s) -> t_kind t = KLiqDeposit -> s_coins s !! key0 t = Some c -> as_declared c (out0 t)) ->
-  (forall t c, In t (sorted_txs s) -> t_kind t = KLiqDeposit -> s_coins s !! key1 t = Some c -> as_declared c (out1 t)) ->
+  (forall t c, In t (sorted_txs s) -> t_kind t = KLiqDeposit -> s_coins s !! key0 t = Some c -> as_declared t c (out0 t)) ->
+  (forall t c, In t (sorted_txs s) -> t_kind t = KLiqDeposit -> s_coins s !! key1 t = Some c -> as_declared t c (out1 t)) ->
   nsum (map (fun t => cd_value (out0 t)) (sorted_txs s)) < U128 ->
   nsum (map (fun t => cd_value (out1 t)) (sorted_txs s)) < U128 ->
   (* the liquidity a pool issues for the deposits of the block does not saturate *)
@@ -422,6 +439,12 @@ Proof.
     destruct (s_coins s !! key0 t) as [c0|] eqn:Ec0; [|discriminate].
     destruct (s_coins s !! key1 t) as [c1|] eqn:Ec1; [|discriminate].
     destruct (Hd0 t c0 Hin Ek Ec0) as [D0 V0]. destruct (Hd1 t c1 Hin Ek Ec1) as [D1 V1].
+    assert (Hnn: fst k <> NewCustom /\ snd k <> NewCustom).
+    { unfold tx_pool in E. destruct (t_poolkey t) as [k0|]; [|discriminate].
+      destruct (canonical_key k0 (t_data t)) eqn:Ec2; [|discriminate]. injection E as <-.
+      apply canonical_key_spec in Ec2 as (_ & N1 & N2 & _). auto. }
+    rewrite (fix_denom_id t (cd_denom (out0 t))) in D0 by (rewrite F0; apply Hnn).
+    rewrite (fix_denom_id t (cd_denom (out1 t))) in D1 by (rewrite F1; apply Hnn).
     split; [exists c0; auto|]. split; [exists c1; auto|]. auto.
   - eapply N.le_lt_trans; [apply nsum_filter_le|exact Hs0].
   - eapply N.le_lt_trans; [apply nsum_filter_le|exact Hs1].
@@ -459,8 +482,8 @@ Lemma before_withdrawals s1 s2 s3 :
   legacy_net s1 && (s_height s1 <? 978392) = false ->
   (forall t k, In t (sorted_txs s1) -> tx_pool t = Some k -> In k K /\ LDk k <> fst k /\ LDk k <> snd k) ->
   NoDup (key_pairs (sorted_txs s1)) ->
-  (forall t c, In t (sorted_txs s1) -> s_coins s1 !! key0 t = Some c -> as_declared c (out0 t)) ->
-  (forall t c, In t (sorted_txs s1) -> s_coins s1 !! key1 t = Some c -> as_declared c (out1 t)) ->
+  (forall t c, In t (sorted_txs s1) -> s_coins s1 !! key0 t = Some c -> as_declared t c (out0 t)) ->
+  (forall t c, In t (sorted_txs s1) -> s_coins s1 !! key1 t = Some c -> as_declared t c (out1 t)) ->
   nsum (map (fun t => cd_value (out0 t)) (sorted_txs s1)) < U128 ->
   nsum (map (fun t => cd_value (out1 t)) (sorted_txs s1)) < U128 ->
   (forall k p'' m, In k K ->
@@ -469,7 +492,7 @@ Lemma before_withdrawals s1 s2 s3 :
        (nsum (map (fun t => cd_value (out1 t)) (txs_for_pool (List.filter (is_deposit_request s2) (sorted_txs s2)) k))) = Ok (p'', m) ->
      p_liqs (pool_at s2 k) + m < U128) ->
   sorted_txs s3 = sorted_txs s1 /\
-  (forall t c, In t (sorted_txs s1) -> t_kind t = KLiqWithdraw -> s_coins s3 !! key0 t = Some c -> as_declared c (out0 t)) /\
+  (forall t c, In t (sorted_txs s1) -> t_kind t = KLiqWithdraw -> s_coins s3 !! key0 t = Some c -> as_declared t c (out0 t)) /\
   forall d, settles d s1 s3.
 Proof.
   intros H1 H2 Hleg Hcover Hkeys Hd0 Hd1 Hs0 Hs1 Hsat.
@@ -513,8 +536,8 @@ Theorem settlement_settles s1 s2 s3 s4 :
   legacy_net s1 && (s_height s1 <? 978392) = false ->
   (forall t k, In t (sorted_txs s1) -> tx_pool t = Some k -> In k K /\ LDk k <> fst k /\ LDk k <> snd k) ->
   NoDup (key_pairs (sorted_txs s1)) ->
-  (forall t c, In t (sorted_txs s1) -> s_coins s1 !! key0 t = Some c -> as_declared c (out0 t)) ->
-  (forall t c, In t (sorted_txs s1) -> s_coins s1 !! key1 t = Some c -> as_declared c (out1 t)) ->
+  (forall t c, In t (sorted_txs s1) -> s_coins s1 !! key0 t = Some c -> as_declared t c (out0 t)) ->
+  (forall t c, In t (sorted_txs s1) -> s_coins s1 !! key1 t = Some c -> as_declared t c (out1 t)) ->
   nsum (map (fun t => cd_value (out0 t)) (sorted_txs s1)) < U128 ->
   nsum (map (fun t => cd_value (out1 t)) (sorted_txs s1)) < U128 ->
   (* no 128-bit clamp is reached: issued liquidity does not saturate, reserves fit *)
@@ -666,8 +689,8 @@ Theorem seal_settles_custom s a s' h :
   legacy_net s && (s_height s <? 978392) = false ->
   (forall t k, In t (sorted_txs s) -> tx_pool t = Some k -> In k K /\ LDk k <> fst k /\ LDk k <> snd k) ->
   NoDup (key_pairs (sorted_txs s)) ->
-  (forall t c, In t (sorted_txs s) -> s_coins s !! key0 t = Some c -> as_declared c (out0 t)) ->
-  (forall t c, In t (sorted_txs s) -> s_coins s !! key1 t = Some c -> as_declared c (out1 t)) ->
+  (forall t c, In t (sorted_txs s) -> s_coins s !! key0 t = Some c -> as_declared t c (out0 t)) ->
+  (forall t c, In t (sorted_txs s) -> s_coins s !! key1 t = Some c -> as_declared t c (out1 t)) ->
   nsum (map (fun t => cd_value (out0 t)) (sorted_txs s)) < U128 ->
   nsum (map (fun t => cd_value (out1 t)) (sorted_txs s)) < U128 ->
   (* no 128-bit clamp is reached in the settlement *)
@@ -795,8 +818,8 @@ Theorem seal_settles_unpegged s a s' d :
   legacy_net s && (s_height s <? 978392) = false ->
   (forall t k, In t (sorted_txs s) -> tx_pool t = Some k -> In k K /\ LDk k <> fst k /\ LDk k <> snd k) ->
   NoDup (key_pairs (sorted_txs s)) ->
-  (forall t c, In t (sorted_txs s) -> s_coins s !! key0 t = Some c -> as_declared c (out0 t)) ->
-  (forall t c, In t (sorted_txs s) -> s_coins s !! key1 t = Some c -> as_declared c (out1 t)) ->
+  (forall t c, In t (sorted_txs s) -> s_coins s !! key0 t = Some c -> as_declared t c (out0 t)) ->
+  (forall t c, In t (sorted_txs s) -> s_coins s !! key1 t = Some c -> as_declared t c (out1 t)) ->
   nsum (map (fun t => cd_value (out0 t)) (sorted_txs s)) < U128 ->
   nsum (map (fun t => cd_value (out1 t)) (sorted_txs s)) < U128 ->
   (forall s2 s3, process_swaps (create_builtins s) = Ok s2 -> process_deposits SO s2 = Ok s3 ->
